@@ -228,3 +228,28 @@ impl<T, A: Allocator> RawTable<T, A> {
         }
     }
 }
+
+/// Verification hooks (`--cfg hashbrown_verif` only): the private producers, so that a
+/// sequential checker can drive `split` / `fold_with` / `Drop` along an explicit split tree.
+#[cfg(hashbrown_verif)]
+#[allow(missing_docs, clippy::missing_safety_doc)]
+pub mod verif_hooks {
+    use super::*;
+
+    pub unsafe fn v_par_iter_producer<T, A: Allocator>(
+        table: &RawTable<T, A>,
+    ) -> impl UnindexedProducer<Item = Bucket<T>> {
+        ParIterProducer {
+            iter: table.iter().iter,
+        }
+    }
+    /// Producer over all elements of `table`, exactly as `RawParDrain::drive_unindexed`
+    /// builds it; the caller plays the role of its guard (`clear_no_drop` afterwards).
+    pub unsafe fn v_par_drain_producer<T: Send, A: Allocator>(
+        table: &RawTable<T, A>,
+    ) -> impl UnindexedProducer<Item = T> {
+        ParDrainProducer {
+            iter: table.iter().iter,
+        }
+    }
+}
